@@ -225,7 +225,7 @@ def describe_steps(steps):
     return out
 
 
-async def _pump(rx, senders, names, rows, exact, pre_rows=None, needs=None, stall=None):
+async def _pump(rx, senders, names, rows, exact, pre_rows=None, needs=None, stall=None, three=False):
     """send one sample per stream per row (lock-step, same timestamp), collect what the engine(s) emit.
 
     rx: one receiver or a list of receivers (then a list of outputs is returned).
@@ -271,7 +271,10 @@ async def _pump(rx, senders, names, rows, exact, pre_rows=None, needs=None, stal
             while r._q:  # pylint: disable=protected-access
                 m = r.consume()
                 idx = int((m.timestamp - E0).total_seconds())
-                got.setdefault(idx, []).append(None if m.value is None else m.value.base_value)
+                if three:
+                    got.setdefault(idx, []).append([None if v is None else v.base_value for v in (m.value_p1, m.value_p2, m.value_p3)])
+                else:
+                    got.setdefault(idx, []).append(None if m.value is None else m.value.base_value)
     outs = []
     for got in gots:
         out = []
@@ -281,6 +284,8 @@ async def _pump(rx, senders, names, rows, exact, pre_rows=None, needs=None, stal
                 out.append("dropped")
             elif len(g) > 1:
                 out.append(["dup", len(g)])
+            elif three:
+                out.append({"p": [out_enc(v, exact) for v in g[0]]})
             else:
                 out.append(out_enc(g[0], exact))
         # before row 0 an engine may (and then must) emit only for timestamps all ITS inputs have
@@ -338,7 +343,7 @@ def _const(op, v, exact):
     return mk(x) if op in ("+", "-", "max", "min") else x
 
 
-def build_hb(t, engines, exact, memo=None, perturb=False, pre=None, built=None):
+def build_hb(t, engines, exact, memo=None, perturb=False, pre=None, built=None, hocls=None):
     """JSON builder tree -> the real builder object, through the public operator/method API.
 
     memo (dict): equal sub-trees are built ONCE and the same Python builder object is used at every
@@ -350,9 +355,9 @@ def build_hb(t, engines, exact, memo=None, perturb=False, pre=None, built=None):
     if memo is not None and key in memo:
         return memo[key]
     k = t[0]
-    rec = lambda x: build_hb(x, engines, exact, memo, perturb, pre, built)
+    rec = lambda x: build_hb(x, engines, exact, memo, perturb, pre, built, hocls)
     if k == "s":
-        res = fe.HigherOrderFormulaBuilder(engines[t[1]], mk)
+        res = (hocls or fe.HigherOrderFormulaBuilder)(engines[t[1]], mk)
     elif k == "u":
         base = engines[t[1][1]] if t[1][0] == "s" else rec(t[1])
         res = base.consumption() if t[2] == "consumption" else base.production()
@@ -461,6 +466,78 @@ async def _run_ho(case, exact):
     await _cleanup([e for _, _, e in built] + list(engines.values()))
     main = descr[-1]
     return {"steps": main["steps"], "fetchers": main["fetchers"], "out": main["out"], "tokens": tokens, "builds": descr}
+
+
+async def _run_ho3(case, exact):
+    """3-phase composition: every operand is a FormulaEngine3Phase made of three per-phase from_receiver
+    engines; the tree is built through the FormulaEngine3Phase / HigherOrderFormulaBuilder3Phase operator
+    API (engines and builders only: that API takes no constants) and build(name, nones_are_zeros=...).
+    Streams are named "<engine>:<phase 0..2>"; phase p of the result must be the tree on the phase-p inputs."""
+    I = imp()
+    fe = I["fe"]
+    ids = sorted(hb_names(case["tree"]))
+    names = [f"{n}:{ph}" for n in ids for ph in range(3)]
+    chans = {nm: I["Broadcast"](name=f"c{nm}") for nm in names}
+    src = case.get("src_nz", {})
+    singles = {nm: fe.FormulaEngine.from_receiver(f"e{nm.split(':')[0]}-{int(nm.split(':')[1]) + 1}", chans[nm].new_receiver(), mk,
+                                                  nones_are_zeros=bool(src.get(nm.split(":")[0], False))) for nm in names}
+    engines = {n: fe.FormulaEngine3Phase(f"e{n}", mk, tuple(singles[f"{n}:{ph}"] for ph in range(3))) for n in ids}
+    builder = build_hb(case["tree"], engines, exact, {} if case.get("share") else None, False, None, None, fe.HigherOrderFormulaBuilder3Phase)
+    eng = builder.build("f", nones_are_zeros=case["nz"])
+    phases = []
+    for ph in range(3):
+        sub = eng._streams[ph]  # pylint: disable=protected-access
+        steps = describe_steps(sub._builder._steps)  # pylint: disable=protected-access
+        for st in steps:
+            if st[0] == "fetch":
+                st[1] = st[1].rsplit("-", 1)[0]
+        fetch = [[k.rsplit("-", 1)[0], bool(f._nones_are_zeros)] for k, f in sub._builder._metric_fetchers.items()]  # pylint: disable=protected-access
+        phases.append({"steps": steps, "fetchers": fetch})
+    rx = eng.new_receiver()
+    senders = {nm: chans[nm].new_sender() for nm in names}
+    await asyncio.sleep(0)
+    out = await _pump(rx, senders, names, case["rows"], exact, None, None, None, True)
+    for ph in range(3):
+        phases[ph]["out"] = [(o["p"][ph] if isinstance(o, dict) else o) for o in out]
+    await _cleanup([eng] + list(eng._streams) + list(singles.values()))  # pylint: disable=protected-access
+    return {"phases": phases}
+
+
+def phase_row(row, ph):
+    return {k.split(":")[0]: v for k, v in row.items() if k.split(":")[1] == str(ph)}
+
+
+def term_ho3(case, obs):
+    srcl = "[" + "; ".join(f"({c_N(k)}, {cbool(z)})" for k, z in sorted(case.get("src_nz", {}).items(), key=lambda kv: int(kv[0]))) + "]"
+    out = []
+    for ph, d in enumerate(obs["phases"]):
+        rows = c_rows({"rows": [phase_row(r, ph) for r in case["rows"]]}, d)
+        if rows is None:
+            out.append(f"({c_hb(case['tree'])}, {cbool(case['nz'])}, {srcl}, ([SOpen; SOpen; SOpen], []), [])")
+        else:
+            out.append(f"({c_hb(case['tree'])}, {cbool(case['nz'])}, {srcl}, {c_prog(d)}, {rows})")
+    return "[" + "; ".join(out) + "]"
+
+
+def gen_ho3_case(rng):
+    ids = rng.sample([0, 1, 2, 3], rng.randint(1, 3))
+
+    def tree(d):
+        if d == 0:
+            return ["s", rng.choice(ids)]
+        base = tree(d - 1 if rng.random() < 0.7 else 0)
+        r = rng.random()
+        if r < 0.15:
+            return ["u", base, rng.choice(["consumption", "production"])]
+        op = rng.choice(HOPS)
+        if r < 0.6:
+            return ["e", base, op, rng.choice(ids)]
+        return ["b", base, op, tree(rng.randint(0, d - 1))]
+    t = tree(rng.randint(1, 3))
+    names = [f"{n}:{ph}" for n in sorted(hb_names(t)) for ph in range(3)]
+    return {"kind": "ho3", "tree": t, "nz": rng.random() < 0.5, "share": rng.random() < 0.3,
+            "src_nz": {str(n): rng.random() < 0.2 for n in sorted(hb_names(t))},
+            "rows": gen_rows(rng, names, rng.randint(2, 3), rng.choice([0.0, 0.2, 0.4]))}
 
 
 async def _run_raw(case, exact):
@@ -659,7 +736,7 @@ def gen_stall(rng, names, nrows):
 
 def run_case(case, exact=True):
     import async_solipsism
-    fn = {"str": _run_str, "ho": _run_ho, "raw": _run_raw, "signed": _run_signed, "pool": _run_pool}[case["kind"]]
+    fn = {"str": _run_str, "ho": _run_ho, "raw": _run_raw, "signed": _run_signed, "pool": _run_pool, "ho3": _run_ho3}[case["kind"]]
     loop = async_solipsism.EventLoop()
     try:
         return loop.run_until_complete(fn(case, exact))
@@ -675,6 +752,8 @@ def run_both(case):
         for b, fb in zip(obs.get("builds", []), fl.get("builds", [])):
             b["float_out"] = fb.get("out")
         for b, fb in zip(obs.get("requests", []), fl.get("requests", [])):
+            b["float_out"] = fb.get("out")
+        for b, fb in zip(obs.get("phases", []), fl.get("phases", [])):
             b["float_out"] = fb.get("out")
         obs["float_steps_same_shape"] = "steps" not in obs or [s[:1] + ([s[1]] if s[0] in ("op", "fetch") else []) for s in fl.get("steps", [])] == \
                                         [s[:1] + ([s[1]] if s[0] in ("op", "fetch") else []) for s in obs["steps"]]
@@ -1290,7 +1369,7 @@ def gen_raw_case(rng):
         def seq(d):
             operand(d)
             for _ in range(rng.randint(0, 4)):
-                calls.append(["o", rng.choice(BOPS + (("max", "min") if rng.random() < 0.2 else ()))])
+                calls.append(["o", rng.choice(BOPS)])
                 operand(d)
         seq(3)
     else:
@@ -1305,7 +1384,66 @@ def gen_raw_case(rng):
             else:
                 calls.append(["clip", rng.choice([None, 0]), rng.choice([None, 3])])
     names = sorted({c[1] for c in calls if c[0] == "m"})
-    return {"kind": "raw", "calls": calls, "rows": gen_rows(rng, names, rng.randint(1, 3), rng.choice([0.0, 0.3]))}
+    return {"kind": "raw", "calls": calls, "wellformed": wellformed,
+            "rows": gen_rows(rng, names, rng.randint(1, 3), rng.choice([0.0, 0.3]))}
+
+
+def raw_ref(case, row):
+    """independent evaluation of a WELL-FORMED push_* sequence: operand := metric | constant | ( seq ),
+    each followed by any number of clippers; seq := operand (op operand)* with ordinary precedence.
+    A missing metric is 0 on a zero-configured name (flag of its first push), else None."""
+    calls = case["calls"]
+    flags = {}
+    for c in calls:
+        if c[0] == "m":
+            flags.setdefault(c[1], bool(c[2]))
+    pos = [0]
+
+    def peek():
+        return calls[pos[0]] if pos[0] < len(calls) else None
+
+    def operand():
+        c = peek()
+        pos[0] += 1
+        if c[0] == "o" and c[1] == "(":
+            v = seq()
+            assert peek() == ["o", ")"]
+            pos[0] += 1
+        elif c[0] == "k":
+            v = const_ref(c[1])
+        elif c[0] == "m":
+            v = fetch_ref(row[str(c[1])], flags[c[1]])
+        else:
+            raise ValueError("operand expected")
+        while peek() is not None and peek()[0] == "clip":
+            _, lo, hi = peek()
+            pos[0] += 1
+            if v is not None:
+                if lo is not None:
+                    v = max(v, dec(lo))
+                if hi is not None:
+                    v = min(v, dec(hi))
+        return v
+
+    def term():
+        v = operand()
+        while peek() is not None and peek()[0] == "o" and peek()[1] in ("*", "/"):
+            op = peek()[1]
+            pos[0] += 1
+            v = binop_ref(op, v, operand())
+        return v
+
+    def seq():
+        v = term()
+        while peek() is not None and peek()[0] == "o" and peek()[1] in ("+", "-"):
+            op = peek()[1]
+            pos[0] += 1
+            v = binop_ref(op, v, term())
+        return v
+
+    v = seq()
+    assert pos[0] == len(calls)
+    return v
 
 
 def all_asts(depth, ids):
@@ -1376,6 +1514,10 @@ def shrink_case(case):
         for t in shrink_hb(case["tree"]):
             if t[0] != "s":
                 yield fix_rows({**case, "tree": t}, sorted(hb_names(t)))
+    elif case["kind"] == "ho3":
+        for t in shrink_hb(case["tree"]):
+            if t[0] != "s" and "c" not in json.dumps(t):
+                yield fix_rows({**case, "tree": t}, [f"{n}:{ph}" for n in sorted(hb_names(t)) for ph in range(3)])
     elif case["kind"] == "pool":
         r = case["requests"]
         for i in range(len(r)):
